@@ -132,10 +132,16 @@ def one(case):
                 with mock.patch.object(PatchTree, "sort", lambda self: None):
                     _, pu = api._diff_and_patch(dev, to_odict(case["old"]), to_odict(case["new"]), acl, None, False, rb=rb)
                 res["patch_unsorted"] = patch_json(pu)
+                # C08: the real PatchTree.sort() (stable, recursive) applied to the fully unsorted tree
+                import copy as _copy
+                pr = _copy.deepcopy(pu)
+                pr.sort()
+                res["patch_resorted"] = patch_json(pr)
             except AssertionError:
                 res["patch_unsorted_err"] = "AssertionError"
             orderer = Orderer(rb["ordering"], vendor)
-            o1 = orderer.order_config(to_odict(case["new"]))
+            # C08 may supply its own tree for order_config (rows with the negation word, exit word)
+            o1 = orderer.order_config(to_odict(case.get("order_cfg", case["new"])))
             res["order_new"] = tree_json(o1)
             res["order_twice"] = tree_json(Orderer(rb["ordering"], vendor).order_config(o1))
             pick = case.get("meta_pick")
